@@ -177,7 +177,8 @@ theorem ite_P {β} {P : M β → Prop} {c : Prop} [Decidable c] {a b : M β} (ha
 
 /-- the parse phase does not fault, and continues only with frames the program is specified to act on -/
 def EgP (m : Maps) (f : Frame) (x : M EgParse) : Prop :=
-  ∃ r, x = .ok r ∧ ∀ p sub, r = .go p sub → p.l4 = l4Off f ∧ egressActsOn m f = true
+  ∃ r, x = .ok r ∧ ∀ p sub, r = .go p sub →
+    p.l4 = l4Off f ∧ AMap.lookup m.subNat p.saddr = some sub ∧ egressActsOn m f = true
 
 theorem EgP.pass {m f} (ev : Nat) : EgP m f (pure (.pass ev)) :=
   ⟨_, rfl, fun _ _ h => by cases h⟩
@@ -208,7 +209,7 @@ theorem egressParse_spec (m : Maps) (f : Frame) : EgP m f (egressParse m f) := b
     refine ite_P (fun _ => EgP.pass 1) fun _ => ?_
     refine ⟨_, rfl, fun p sub hp => ?_⟩
     cases hp
-    refine ⟨rfl, ?_⟩
+    refine ⟨rfl, hsub, ?_⟩
     simp only [egressActsOn, natCandidate, l4Off, IP_END, OFF_ETHERTYPE, OFF_VIHL, OFF_PROTO, OFF_SADDR, OFF_FRAG, ETH_HLEN, badIpHeader] at *
     simp_all
   refine ite_P (fun hudp => ?_) fun hnudp => ?_
@@ -218,7 +219,7 @@ theorem egressParse_spec (m : Maps) (f : Frame) : EgP m f (egressParse m f) := b
     refine ite_P (fun _ => EgP.pass 1) fun _ => ?_
     refine ⟨_, rfl, fun p sub hp => ?_⟩
     cases hp
-    refine ⟨rfl, ?_⟩
+    refine ⟨rfl, hsub, ?_⟩
     simp only [egressActsOn, natCandidate, l4Off, IP_END, OFF_ETHERTYPE, OFF_VIHL, OFF_PROTO, OFF_SADDR, OFF_FRAG, ETH_HLEN, badIpHeader] at *
     simp_all
   refine ite_P (fun hicmp => ?_) fun _ => EgP.pass 0
@@ -226,7 +227,7 @@ theorem egressParse_spec (m : Maps) (f : Frame) : EgP m f (egressParse m f) := b
     refine ld16_bind (P := EgP m f) (by omega) ?_
     refine ⟨_, rfl, fun p sub hp => ?_⟩
     cases hp
-    refine ⟨rfl, ?_⟩
+    refine ⟨rfl, hsub, ?_⟩
     simp only [egressActsOn, natCandidate, l4Off, IP_END, OFF_ETHERTYPE, OFF_VIHL, OFF_PROTO, OFF_SADDR, OFF_FRAG, ETH_HLEN, badIpHeader] at *
     simp_all
 
@@ -246,7 +247,7 @@ theorem egress_spec (m : Maps) (clk : UInt64) (f : Frame) :
   cases r with
   | pass ev => exact ⟨_, rfl, Agree.refl _ _, Or.inl rfl, Or.inl rfl⟩
   | go p sub =>
-    obtain ⟨hl4, hact⟩ := hgo p sub rfl
+    obtain ⟨hl4, _, hact⟩ := hgo p sub rfl
     have hlen : IP_END ≤ f.length := by
       simp only [egressActsOn, Bool.and_eq_true] at hact
       exact natCandidate_len hact.1.1
